@@ -209,16 +209,11 @@ def model_docs(gens):
     return model.batch("C02", cmds, chunk=20), model.batch("C02", cmds2, chunk=20)
 
 
-OPEN_TEXT_CLASS = "C02-block-string-blank-line"
+OPEN_TEXT_CLASS = None   # every class found so far is fixed in /repo (known_findings/C02.json "fixed")
 
 
 def classify(g, op, problems, covered):
-    """finding class of a failing operation, or None (= violation).  One class is open: a block string with a
-    line of blanks only, failing by an altered string value and nothing else."""
-    names, frags = G.reachable(g.doc, op)
-    printed = "\n\n".join([print_ast(op)] + [print_ast(frags[n]) for n in names])
-    if OPEN_TEXT_CLASS in G.text_classes(printed) and {p["kind"] for p in problems} <= {"ast", "constant"}:
-        return OPEN_TEXT_CLASS
+    """finding class of a failing operation, or None (= violation)"""
     return None
 
 
@@ -448,6 +443,18 @@ def documents(ctx):
     cp = G.corpus_c01()
     stream_scenarios(ctx, "corpus_c01", cp)
     stream_scenarios(ctx, "corpus_c01_extract", cp, extract=True)
+    # ---- @skip/@include on inline fragments and spreads (e47d9e8: conditional spreads are unpacked, the collected
+    #      fields are copies with the container's directives): the SENT text must still be the authored one
+    cf = [s for s in (make_base(base + 9000 + i, ("cond_fragment",)) for i in range(60 if T else 12)) if s]
+    stream_scenarios(ctx, "cond_fragment", cf)
+    cfd = []
+    for i in range(40 if T else 8):
+        s = make_base(base + 9500 + i, ("cond_fragment", "subscriptions"))
+        if s:
+            d = G.decorate(s, base + 950 + i, adversarial=True, mixin_field=True, mixin_def=True, blocks=True)
+            cfd.append(d or s)
+    stream_scenarios(ctx, "cond_fragment_decorated", cfd)
+    stream_scenarios(ctx, "cond_fragment_extract", cf[: (16 if T else 4)], extract=True)
     wn = [s for s in (make_base(base + 8000 + i, ("weird_names", "subscriptions")) for i in range(40 if T else 8)) if s]
     stream_scenarios(ctx, "weird_names_subscriptions", wn)
     stream_scenarios(ctx, "weird_names_subscriptions_extract", wn[: (12 if T else 3)], extract=True)
@@ -561,7 +568,7 @@ def literals(ctx):
             continue
         rep = {"schema": sc.sdl, "queries": sc.queries, "value": v, "block": b, "where": w, "problems": problems,
                "sent": sent}
-        if OPEN_TEXT_CLASS in tc and {p["kind"] for p in problems} <= {"ast"}:
+        if OPEN_TEXT_CLASS and OPEN_TEXT_CLASS in tc and {p["kind"] for p in problems} <= {"ast"}:
             run.finding(OPEN_TEXT_CLASS, f"block string {v!r} at position {w}: value altered", rep)
             continue
         m = minimise(v, b, w) if minimised < 2 else v
